@@ -647,6 +647,45 @@ def created_levels_use_the_calls_registry(col):
                       % (got if not got.ok else 'returned', sorted(seen_global), seen_g, seen_other), None)
 
 
+def exact_registration_of_object(col):
+    """an exact registration covers instances of exactly that type - also when the type is `object`: register(object, .., exact=True) serves
+    object() itself, and no other type that would otherwise be uncovered"""
+    from glom import Glommer, UnregisteredTarget, GlomError, T, Path
+
+    class Plain:
+        def __init__(self):
+            self.a = 1
+
+    class Slotted:
+        __slots__ = ('a',)
+
+        def __init__(self):
+            self.a = 1
+    tag = lambda o, k: ('exact-object', k)
+    for default_types in (False,):     # (in a default registry `object` is registered already, not exact: out of this battery's question)
+        g = Glommer(register_default_types=default_types)
+        g.register(object, get=tag, iterate=lambda o: iter(['walked']), keys=lambda o: ['k'], exact=True)
+        probes = [('object() itself, get', object(), Path('a'), ('ok', ('exact-object', 'a'))), ('object() itself, iterate', object(), [T], ('ok', ['walked']))]
+        if not default_types:
+            probes += [('Plain instance, get', Plain(), Path('a'), 'unregistered'), ('Slotted instance, get', Slotted(), Path('a'), 'unregistered'),
+                       ('int, get', 5, Path('real'), 'unregistered'), ('Plain instance, iterate', Plain(), [T], 'unregistered'),
+                       ('list, iterate', [1], [T], 'unregistered'), ('Plain instance, star', Plain(), '*', ('ok', [])), ('set, star', {3}, '*', ('ok', []))]
+        else:
+            probes += [('Plain instance, get', Plain(), Path('a'), ('ok', 1)), ('set, star', {3}, '*', ('ok', [3])), ('Slotted instance, star', Slotted(), '*', ('ok', [])),
+                       ('generator, star', (x for x in [4]), '*', ('ok', [4])), ('Plain instance, iterate', Plain(), [T], 'unregistered')]
+        for desc, target, spec, want in probes:
+            got = call(g.glom, target, spec)
+            col.case(('exact-object', default_types, desc), True)
+            col.count('api_lookups')
+            if want == 'unregistered':
+                ok = (not got.ok) and isinstance(got.exc, UnregisteredTarget)
+            else:
+                ok = got.ok and got.value == want[1]
+            if not ok:
+                col.violation('C13/exact-registration-of-object-serves-other-types', 'Glommer(register_default_types=%s) with register(object, .., exact=True): %s gives %r, expected %s'
+                              % (default_types, desc, got, 'UnregisteredTarget' if want == 'unregistered' else repr(want[1])), None)
+
+
 def glommer_driver(default_types):
     def make():
         g = Glommer(register_default_types=default_types)
@@ -822,6 +861,7 @@ def run(ctx):
             nested_entry_points_use_the_calls_registry(col)
             ephemeral_classes(col, contract)
             created_levels_use_the_calls_registry(col)
+            exact_registration_of_object(col)
         fams = families()
         for name, registrable, classes in fams:
             instances = [make_instance(c) for c in classes]
